@@ -121,6 +121,7 @@ Section EvInd.
   Hypothesis HList : forall l, Forall P l -> P (VList l).
   Hypothesis HName : forall n p, P (VName n p).
   Hypothesis HNode : forall c fs, Forall (fun kv => P (snd kv)) fs -> P (VNode c fs).
+  Hypothesis HInt : forall z, P (VInt z).
 
   Fixpoint ev_ind' (e : ev) : P e :=
     match e with
@@ -136,6 +137,7 @@ Section EvInd.
                                    | [] => Forall_nil _
                                    | kv :: r => Forall_cons kv (ev_ind' (snd kv)) (go r)
                                    end) fs)
+    | VInt z => HInt z
     end.
 End EvInd.
 
@@ -468,7 +470,7 @@ Proof.
   - cbn [attach_ev]. destruct (String.eqb c "ExprAttribute").
     + cbn [erase_ev]. f_equal. rewrite map_map. apply map_ext_in. intros [k v] Hin.
       rewrite Forall_forall in H. pose proof (H _ Hin) as Hv. cbn [snd] in Hv.
-      destruct (String.eqb k "values"); [|reflexivity]. destruct v as [| | | |l| |]; try reflexivity.
+      destruct (String.eqb k "values"); [|reflexivity]. destruct v as [| | | |l| | |]; try reflexivity.
       destruct l as [|v0 r]; [reflexivity|].
       cbn [attach_ev erase_ev map] in Hv. inversion Hv as [[H0 Hr]].
       cbn [erase_ev map]. rewrite H0. f_equal. f_equal. f_equal.
@@ -1224,7 +1226,7 @@ Qed.
 
 Lemma ev_eqb_eq : forall a b, ev_eqb a b = true -> a = b.
 Proof.
-  induction a using ev_ind'; intros b' E; destruct b' as [|b'|s'|s'|l'|n' p'|c' fs']; simpl in E; try discriminate; try reflexivity.
+  induction a using ev_ind'; intros b' E; destruct b' as [|b'|s'|s'|l'|n' p'|c' fs'|z']; simpl in E; try discriminate; try reflexivity.
   - apply Bool.eqb_prop in E. subst. reflexivity.
   - apply String.eqb_eq in E. subst. reflexivity.
   - apply String.eqb_eq in E. subst. reflexivity.
@@ -1235,6 +1237,7 @@ Proof.
     revert fs' E2. induction fs as [|[k x] r IH]; destruct fs' as [|[k' y] s]; intro E; try discriminate; [reflexivity|].
     apply andb_true_iff in E as [E E3]. apply andb_true_iff in E as [E1 E2]. apply String.eqb_eq in E1. subst.
     inversion H; subst. simpl in H2. f_equal; [f_equal; auto|]. apply IH; assumption.
+  - apply Z.eqb_eq in E. subst. reflexivity.
 Qed.
 
 Lemma slot_restored_true e : slot_restored e = true -> attach_top (reload_ev e) = e.
